@@ -580,7 +580,7 @@ spifconf_shell_expand(spif_charptr_t s)
                   }
               }
               if (!builtins[k].name) {
-                  newbuff[j] = *pbuff;
+                  newbuff[j] = *(--pbuff);
               } else {
                   D_CONF(("Call to built-in function %s detected.\n", builtins[k].name));
                   Command = (spif_charptr_t) MALLOC(CONFIG_BUFF);
